@@ -22,7 +22,7 @@
   So the implemented set is not `{f k ≤ p / e'}` for any single `e'`; it coincides with the textbook
   set whenever no table lies in the slack zones (`twoSidedM_eq_textbook`).
 -/
-import Statrs.Draft.C16.FisherTwoSidedSpec
+import Statrs.Props.C16.FisherTwoSidedSpec
 set_option linter.unusedVariables false
 set_option linter.unusedSectionVars false
 namespace Statrs.Props.C16
